@@ -184,6 +184,10 @@ def clusterOp (toks : List String) : String :=
   | some "c.iso" => if validStore a then "ok" else "bad-op"
   | some "c.heal" => "ok"
   | some "c.wait" => "ok"
+  | some "c.cfg" => "ok"
+  | some "c.gate" => if validStore a then "ok" else "bad-op"
+  | some "c.step" => if validStore a then "ok" else "bad-op"
+  | some "c.open" => if validStore a then "ok" else "bad-op"
   | some "c.hold" => if validStore a && validStore b then "ok" else "bad-op"
   | some "c.release" => "ok"
   | some "c.elect" => if validRegion a then "ok" else "bad-op"
@@ -191,6 +195,7 @@ def clusterOp (toks : List String) : String :=
   | some "c.restart" => if validStore a then "ok" else "bad-op"
   | some "c.propose" => if validStore a && validRegion b then "ok" else "bad-op"
   | some "c.read" => if validStore a && validRegion b then "ok" else "bad-op"
+  | some "c.replicaread" => if validStore a && validRegion b then "ok" else "bad-op"
   | some "c.probe" => if validStore a && toks.length ≥ 6 then "ok" else "bad-op"
   | _ => "bad-op"
 
